@@ -1,7 +1,6 @@
 (* Generic list helpers shared by all store models. Stdlib only. *)
 From Coq Require Import List Arith Lia Bool Permutation.
 Import ListNotations.
-Set Implicit Arguments.
 
 Fixpoint remove_first {A} (f : A -> bool) (l : list A) : list A :=
   match l with [] => [] | x :: l' => if f x then l' else x :: remove_first f l' end.
